@@ -173,3 +173,33 @@ def rv_variant(du, rv):
         if a:
             return a[1]
     return None
+
+
+_ALWAYS_ERR = {}
+
+
+def always_err(cx, fn):
+    """does every return of fn assign an Err aggregate to _0 (error constructor helpers such as
+    Compiler::error, unexpected_type, Parser::error)"""
+    from ..mir import _block_ret_class
+    key = (id(cx), fn.name)
+    if key in _ALWAYS_ERR:
+        return _ALWAYS_ERR[key]
+    _ALWAYS_ERR[key] = False
+    cfg = cx.cfg(fn)
+    ok = True
+    any_w = False
+    for b in cfg.reach:
+        cls = _block_ret_class(fn, b)
+        if cls is None:
+            continue
+        any_w = True
+        if cls == "err":
+            continue
+        if cls.startswith("call:"):
+            t = cx.F.fns.get(cls[5:])
+            if t is not None and t is not fn and always_err(cx, t):
+                continue
+        ok = False
+    _ALWAYS_ERR[key] = ok and any_w
+    return _ALWAYS_ERR[key]
